@@ -232,7 +232,8 @@ def shard(idx, seed, n, n_names, avoid):
         cases.append(build_case(kind, files, main))
     for i in range(n_names):
         sub = random.Random(rnd.randrange(2**62))
-        shape, text = names.build(sub, avoid=avoid)
+        # round-robin over the catalogue, so that every shape is part of every run
+        shape, text = names.build(sub, avoid=avoid, index=seed + idx * n_names + i)
         cases.append(build_case("names", {"m.emb": text}, "m.emb", shape=shape))
     stats.extra["_cases"] = cases
     return stats
